@@ -55,6 +55,11 @@ pub fn gen_script_ex(rng: &mut Rng, n_ops: usize, with_faults: bool, with_timeou
             let (oi, id) = live_search[k];
             match rng.below(10) {
                 0..=5 => {
+                    if rng.chance(1, 6) {
+                        // the caller gives up on one wait (its own select!/timer) and asks again later
+                        steps.push(Step::NextCancel(oi));
+                        steps.push(Step::Settle);
+                    }
                     steps.push(Step::Send { id, op: *rng.pick(&[4u64, 4, 19, 25]), good: false });
                     if rng.chance(1, 2) {
                         steps.push(Step::Settle);
